@@ -334,7 +334,7 @@ def _run_property(pid, sp, tier, seed, my_findings, tmpdir, t0):
     # ---- confirm failures by replay, dedupe by signature
     violations = []
     seen_sig = set()
-    rdir = os.path.join(VERIF, "replays", pid)
+    rdir = os.path.join(os.environ.get("VERIF_REPLAY_DIR", os.path.join(VERIF, "replays")), pid)
     for f in raw_fails:
         ji = f["ji"]
         kind = ji["job"]["kind"]
@@ -415,8 +415,9 @@ def _run_property(pid, sp, tier, seed, my_findings, tmpdir, t0):
               assumptions=sp.get("assumptions", []), wall_s=round(wall, 2), violations=len(violations),
               errors=errors, technique=sp.get("technique", ""),
               known_findings=[kf["text"] for kf in my_findings])
-    os.makedirs(os.path.join(VERIF, "evidence"), exist_ok=True)
-    evp = os.path.join(VERIF, "evidence", pid + ".json")
+    evdir = os.environ.get("VERIF_EVIDENCE_DIR", os.path.join(VERIF, "evidence"))   # experiments on scratch trees redirect this
+    os.makedirs(evdir, exist_ok=True)
+    evp = os.path.join(evdir, pid + ".json")
     with open(evp + ".tmp", "w") as fh:
         json.dump(ev, fh, indent=1, sort_keys=False)
     os.replace(evp + ".tmp", evp)
